@@ -259,7 +259,7 @@ def load_tu(repo, rel, cache_dir):
 
 COQ_RESERVED = set("""as at cofix else end exists exists2 fix for forall fun if IF in let match mod Prop return Set
 then Type using where with by lazymatch multimatch nth length map fst snd pair nil cons app rev true false negb andb orb
-wrapu wraps ctrue b2z shamt_ok cshl_u cshl_s cshr cnot_u cdiv crem rd upd upd_nat le_load le_store clz ctz popcount
+wrapu wraps ctrue b2z shamt_ok cshl_u cshl_s cshr cnot_u cdiv crem rd upd upd_nat le_load le_store clz ctz popcount loop_exhausted
 Z N nat bool list option Some None O S xH xI xO Zpos Zneg Z0 tt unit eq and or not""".split())
 
 
@@ -368,8 +368,9 @@ BUILTIN_CALLS = {
 
 
 class FnTranslator:
-    def __init__(self, unit, tu, node, coqname):
+    def __init__(self, unit, tu, node, coqname, opts=None):
         self.unit, self.tu, self.node, self.coqname = unit, tu, node, coqname
+        self.opts = opts or {}
         self.names = {}
         self.used = set()
         self.size = 0
@@ -1085,6 +1086,12 @@ class FnTranslator:
             return parts[0] + "\n"
         return "(" + ", ".join(parts) + ")\n"
 
+    def exhausted(self):
+        n = len(self.info.written)
+        parts = ["[loop_exhausted]"] * n + (["loop_exhausted"] if self.info.ret.kind != "void" else [])
+        self.grow()
+        return (parts[0] if len(parts) == 1 else "(" + ", ".join(parts) + ")") + "\n"
+
     def ifstmt(self, s, rest, env, k, kb, kc):
         inner = s["inner"]
         c = self.full_expr(inner[0], env)
@@ -1182,10 +1189,18 @@ class FnTranslator:
             b = after(e.copy())
             return head + "if %s then\n%selse\n%s" % (c.b(), indent(a), indent(b))
 
+        bound = self.opts.get("unroll")
+
         def iteration(e):
+            if bound is not None and depth[0] >= int(bound):
+                # the target allows a data-dependent exit within `unroll` iterations: past them the result is
+                # [loop_exhausted], a value outside every C type (see CSem.v)
+                return self.exhausted()
             depth[0] += 1
             if depth[0] > UNROLL_CAP:
-                raise Unsupported("loop does not end within %d unrolled iterations (the trip count must follow from constants)" % UNROLL_CAP)
+                depth[0] -= 1
+                raise Unsupported("loop does not end within %d unrolled iterations (the trip count must follow from "
+                                  "constants, or the target must give an \"unroll\" bound)" % UNROLL_CAP)
             try:
                 def step(e2):
                     if inc:
@@ -1313,7 +1328,7 @@ class Unit:
                 self.tu_rel[id(tu)], a["type"], a["name"], name, "; ".join(lit(wrap_t(et, v)) for v in a["values"]))))
         return self.arrays[key]
 
-    def function(self, tu, name, caller=None, coqname=None, header=None):
+    def function(self, tu, name, caller=None, coqname=None, opts=None):
         key = (id(tu), name)
         if key in self.done:
             r = self.done[key]
@@ -1334,7 +1349,7 @@ class Unit:
             if cn in self.names:
                 raise Unsupported("two translated functions named %s" % cn)
             try:
-                info = FnTranslator(self, tu, tu.funcs[name], cn).translate()
+                info = FnTranslator(self, tu, tu.funcs[name], cn, opts).translate()
             except Unsupported as e:
                 self.done[key] = e
                 raise
@@ -1362,7 +1377,7 @@ class Unit:
 
 
 def load_targets():
-    return json.loads(TARGETS.read_text())
+    return json.loads(Path(os.environ.get("C2COQ_TARGETS", TARGETS)).read_text())
 
 
 def generate(repo, outdir, strict=False):
@@ -1387,7 +1402,7 @@ def translate_all(repo, targets=None):
         cn = tg.get("as") or "c_" + name
         try:
             tu = unit.tu(rel)
-            info = unit.function(tu, name, coqname=cn)
+            info = unit.function(tu, name, coqname=cn, opts=tg)
             if info.coqname != cn:
                 raise Unsupported("the name %s is already taken" % cn)
             done.append((tg, info))
